@@ -25,6 +25,9 @@ def main(argv=None) -> int:
         print(f'no check for {prop}', file=sys.stderr)
         return 2
     run = common.Run(prop, args.tier, seed)
+    import warnings
+
+    warnings.simplefilter('ignore')
     try:
         common.import_cirq()
         if args.replay:
